@@ -22,17 +22,28 @@ from common import clist, cstr, cbool, cpair
 PROP = 'C10'
 COQ_DIR = 'Args'
 ASSUMPTIONS = [
-    'the value of a reference (path of the producer working directory / data file, contents of the referenced '
-    'file without trailing newlines) is computed by the harness from the instance layout and given to the model; '
-    'DataReference.resolve is compared with it through the substituted command line, not modelled',
+    'the value of a reference is computed by the harness from the instance layout (r_value) and given to the model of '
+    'resolveArguments; that every such value and spelling is the one Args.ValueModel (model of absoluteReference / '
+    'relativeReference / DataReference.resolve) computes from the reference and the walked file system is checked inside '
+    'Coq for every distinct reference of the run (check_dref); the real DataReference objects are compared with that model '
+    'on a separate pool (check_value: every file part x method x producer of the pool)',
+    'ValueModel does not cover loopref / loopoutput, repeating producers (stream stdout), glob patterns or ".." in file '
+    'parts, symbolic links, non-ASCII file contents',
     'argument strings come with the tokenisation of the code\'s own recogniser (regular expression of '
     'FlowIR.discover_reference_strings); every generated string is checked against that expression',
-    'literal text holds no %(variable)s references and no [index] accesses (FlowIR.fill_in is then the identity)',
+    'literal text holds no %(variable)s references and no [index] accesses (FlowIR.fill_in is then the identity); on an '
+    'instantiated experiment commandDetails["arguments"] is already interpolated, so resolveArguments never sees %(variable)s',
     'only ref / output / copy references are generated (loopref / loopoutput need DoWhile placeholders); copy '
     'references are declared but never written in the arguments; no reference is declared twice',
     'instance paths are rewritten to /I before comparing (they contain no colon, so no spelling)',
 ]
 HEADER = 'Require Import V.Lib.PyStr V.Args.Model.\nOpen Scope string_scope.'
+HEADER_V = 'Require Import V.Lib.PyStr V.Args.Model V.Args.ValueModel.\nOpen Scope string_scope.'
+# file parts of the value correspondence (as written: nothing is normalised by the code)
+VFILES = [None, 'o.txt', 'p.txt', 'A', 'missing.txt', 'sub', 'sub/', 'sub/./o.txt', 'sub//o.txt', 'o.txt/', 'sub/.', './o.txt']
+VMETHODS = ['ref', 'copy', 'link', 'output', 'copyout', 'extract']
+STDOUT_OF = {'A': '\n so \n\n', 'AB': '', 'BAB': 'x:y'}   # producers that have an out.stdout (all stages)
+PADDED = ['\n lead\n', 'trail \n\n', '\n', ' ', 'a\r\n', '\tt\n \n']   # contents of <producer>/p.txt (by name index)
 
 NAMES = ['A', 'B', 'AB', 'BA', 'AA', 'BB', 'ABA', 'BAB']
 STAGES = [0, 1, 2]
@@ -187,6 +198,11 @@ class Instance(object):
                     if c is not None:
                         with open(os.path.join(wd, fl), 'w') as f:
                             f.write(c)
+                with open(os.path.join(wd, 'p.txt'), 'w', newline='') as f:
+                    f.write(PADDED[(NAMES.index(n) + st) % len(PADDED)])
+                if n in STDOUT_OF:
+                    with open(os.path.join(wd, 'out.stdout'), 'w') as f:
+                        f.write(STDOUT_OF[n])
                 os.makedirs(os.path.join(wd, 'sub'), exist_ok=True)
                 with open(os.path.join(wd, 'sub', 'o.txt'), 'w') as f:
                     f.write('sub')
@@ -370,6 +386,106 @@ def with_orders(case):
     return out
 
 
+# ------------------------------------------------------------------ values (DataReference.resolve)
+def coq_sref(ident, relid, fil, method, direct, loc):
+    return '(mk_sref %s %s %s %s %s %s)' % (cstr(ident), cstr(relid), common.copt(fil, cstr), cstr(method),
+                                            cbool(direct), cstr(loc))
+
+
+def listing(inst, root):
+    """the file system under `root` as it is (walked after the harness wrote its files), instance path -> /I"""
+    out = []
+    if os.path.isdir(root):
+        for d, _dirs, files in os.walk(root):
+            out.append((inst.canon(d), None))
+            for fn in files:
+                with open(os.path.join(d, fn), newline='') as f:
+                    out.append((inst.canon(os.path.join(d, fn)), f.read()))
+    elif os.path.isfile(root):
+        with open(root) as f:
+            out.append((inst.canon(root), f.read()))
+    return out
+
+
+def coq_fs(lst):
+    return clist(['(%s, %s)' % (cstr(p), 'Dir' if c is None else '(File %s)' % cstr(c)) for p, c in lst])
+
+
+def sref_of(inst, r):
+    """the structured reference + the file system of its producer, from the harness' knowledge of the layout"""
+    store = inst.exp.experimentGraph.rootStorage
+    if r['stage'] is None:
+        ident = relid = 'data/%s' % r['name']
+        root = store.resolvePath(ident)
+        return coq_sref(ident, relid, None, r['method'], True, inst.canon(root)), coq_fs(listing(inst, root))
+    root = store.workingDirectoryForComponent(r['stage'], r['name'])
+    return (coq_sref('stage%d.%s' % (r['stage'], r['name']), r['name'], r['file'], r['method'], False, inst.canon(root)),
+            coq_fs(listing(inst, root)))
+
+
+def value_pool(tier):
+    names = NAMES if tier != 'quick' else ['A', 'AB', 'BAB', 'B']
+    pool = []
+    for st in STAGES:
+        for n in names:
+            for fl in VFILES:
+                for m in VMETHODS:
+                    pool.append({'stage': st, 'name': n, 'file': fl, 'method': m})
+    for n in DATA + ['nope']:
+        for m in VMETHODS:
+            pool.append({'stage': None, 'name': n, 'file': None, 'method': m})
+    return pool
+
+
+def explore_values(ctx, used_refs):
+    """(a) the real DataReference objects (spellings, resolve) against Args.ValueModel on a pool of references;
+    (b) every reference used by the cases of the run: the dref given to the model of resolveArguments is the one
+    ValueModel.to_dref computes from the reference and the file system"""
+    from experiment.model.graph import DataReference
+    inst = Instance([])
+    try:
+        g = inst.exp.experimentGraph
+        terms, meta = [], []
+        for k, r in enumerate(value_pool(ctx.tier)):
+            if r['stage'] is None:
+                obj = DataReference(r_abs(r))
+            elif k % 2:
+                obj = DataReference(r_rel(r), stageIndex=r['stage'])       # declared in the relative spelling
+            else:
+                obj = DataReference(r_abs(r), stageIndex=1)
+            try:
+                o = 'V' + inst.canon(obj.resolve(g))
+            except Exception as e:
+                o = type(e).__name__
+            sr, fs = sref_of(inst, r)
+            direct = obj.isDirectReference(g)
+            if direct != (r['stage'] is None) or obj.fileRef != r['file'] or obj.method != r['method']:
+                ctx.disagree(r, [direct, obj.fileRef, obj.method], [r['stage'] is None, r['file'], r['method']],
+                             'C10 DataReference parts (direct / file part / method) vs the declaration as written')
+            terms.append(cpair(cpair(sr, fs), cpair(cpair(cstr(obj.absoluteReference), cstr(obj.relativeReference)), cstr(o))))
+            meta.append((r, [obj.absoluteReference, obj.relativeReference, o]))
+            ctx.count('value_' + (o[:1] if o.startswith('V') else o))
+        bad = ctx.model_mismatches(HEADER_V, terms, 'check_value', chunk=300, name='values')
+        for k, i in enumerate(bad):
+            m = ctx.model_eval(HEADER_V, 'let c := %s in (s_abs (fst (fst c)), s_rel (fst (fst c)), '
+                                         'outcome (resolve (snd (fst c)) (fst (fst c))))' % terms[i]) if k < 3 else ''
+            ctx.disagree(meta[i][0], meta[i][1], m, 'C10 DataReference spellings / resolve vs Args.ValueModel')
+        ctx.count('value_cases', len(terms))
+        terms, meta = [], []
+        for key in sorted(used_refs):
+            r = used_refs[key]
+            sr, fs = sref_of(inst, r)
+            terms.append(cpair(cpair(sr, fs), coq_ref(r)))
+            meta.append(r)
+        bad = ctx.model_mismatches(HEADER_V, terms, 'check_dref', chunk=300, name='drefs')
+        for i in bad:
+            ctx.disagree(meta[i], coq_ref(meta[i]), 'to_dref', 'C10 reference given to the model of resolveArguments vs '
+                                                               'Args.ValueModel.to_dref (spellings, substitutable, value)')
+        ctx.count('distinct_references_of_the_cases', len(terms))
+    finally:
+        inst.close()
+
+
 # ------------------------------------------------------------------ running
 def explore(ctx, cases, batch=240):
     terms = []
@@ -431,6 +547,12 @@ def judge(ctx, case, obs):
         ctx.count('class_' + c)
     if not cls:
         ctx.count('outside_all_finding_classes')
+    # (Python mirror of the extra hypotheses of C10_unused / C10_unresolved; the Coq checkers decide)
+    subs = [r for r in dec if r['method'] in SUBST]
+    if all(sum(1 for r in subs if t in (r_abs(r), r_rel(r))) <= 1 for k, t in case['pieces'] if k == 'T'):
+        ctx.count('no_token_spells_two_references')
+    if all(':' not in t for k, t in case['pieces'] if k == 'L') and all(':' not in r_value(r) for r in subs):
+        ctx.count('every_colon_belongs_to_a_token')
     # overlap statistics
     sp = [r_rel(r).rsplit(':', 1)[0] for r in dec if r['method'] in SUBST]
     if any(a != b and a.endswith(b) for a in sp for b in sp):
@@ -511,6 +633,11 @@ def run(ctx):
     ctx.count('random_base_cases', nbase)
     ctx.exhaustive = False
     explore(ctx, cases)
+    used = {}
+    for c in cases:
+        for r in c['declared']:
+            used[json.dumps([r['stage'], r['name'], r['file'], r['method']])] = r
+    explore_values(ctx, used)
 
 
 def replay(ctx, path):
